@@ -254,13 +254,50 @@ pub fn run(ctx: &'static Ctx) -> i32 {
             }
         }
     }
+    // the same pairs through a real command tree: a one-leaf tree defined with the mnemonic, the
+    // candidate sent as a program header; the handler runs iff the reference says "match"
+    let mut tree_runs = 0u64;
+    for (di, d) in REAL_MNEMONICS.iter().enumerate() {
+        use crate::rig::{run_vec, RigDev, SharedTree, TreeSpec};
+        if d.len() > 12 {
+            continue;
+        }
+        let spec = TreeSpec::root(vec![TreeSpec::leaf(d, 0)]);
+        let shared = SharedTree::of(&spec);
+        let db: &'static [u8] = d.as_bytes();
+        for (ci, c) in neighbourhood(db).iter().enumerate() {
+            if c.is_empty() || c.len() > 12 || !c[0].is_ascii_alphabetic() || !c.iter().all(|x| x.is_ascii_alphanumeric() || *x == b'_') {
+                continue;
+            }
+            let want = match ref_match(db, c) {
+                Some(w) => w,
+                None => continue,
+            };
+            tree_runs += 1;
+            let mut dev = RigDev::new();
+            let mut out = Vec::new();
+            let r = match guarded(|| run_vec(shared.node(), &mut dev, c, &mut out)) {
+                Ok(r) => r,
+                Err(p) => {
+                    ctx.violation(total + (di * 100000 + ci) as u64, "panic", &format!("tree {{{d}}}: `{}` panicked: {p}", esc(c)), json!({"kind": "tree", "def": d, "cand": esc(c)}));
+                    continue;
+                }
+            };
+            let invoked = !dev.calls.is_empty();
+            if invoked != want || r.is_ok() != want {
+                let key = if want { "tree-rejects-valid-form" } else { "tree-accepts-invalid-form" };
+                ctx.violation(total + (di * 100000 + ci) as u64, key, &format!("tree with the single node `{d}`: header `{}` -> handler invoked = {invoked}, result {:?}; the reference matcher says match = {want}", esc(c), r.err().map(|e| e.get_code())), json!({"kind": "tree", "def": d, "cand": esc(c)}));
+            }
+        }
+    }
     samples.push(json!({"def": "TRIGger", "cand": "TRIGG", "reference": "no match", "impl": mnemonic_match(b"TRIGger", b"TRIGG")}));
     samples.push(json!({"def": "ABab2", "cand": "ab2", "reference": format!("{:?}", ref_match(b"ABab2", b"ab2")), "impl": mnemonic_match(b"ABab2", b"ab2")}));
 
     let mut c = cov();
-    c.insert("evaluations".into(), json!(acc.evals + real_pairs));
+    c.insert("evaluations".into(), json!(acc.evals + real_pairs + tree_runs));
+    c.insert("headers_through_a_tree".into(), json!(tree_runs));
     c.insert("distinct_nontrivial".into(), json!(acc.near + real_near));
-    c.insert("rule".into(), json!(format!("every definition S.t.n (S in {{A,B}}^1..{max_s}, t in {{a,b}}^0..{max_t}, n in {{'',1,2,12,01,0}}) x every candidate in {{a,A,b,B,1,2,0,_}}^<={max_c}; plus {} real SCPI mnemonics (incl. 12-character and suffixed ones) x their neighbourhood (all prefixes, single-character edits, case patterns, suffix variants, all other mnemonics); each pair through mnemonic_match, Token::match_program_header (both token kinds) and, for suffix-less definitions, mnemonic_compare, against the independent matcher; distinct non-trivial = pairs whose candidate alphabetic part is a non-empty case-insensitive prefix of the long form (short form, long form, partial long forms, under-length abbreviations)", REAL_MNEMONICS.len())));
+    c.insert("rule".into(), json!(format!("every definition S.t.n (S in {{A,B}}^1..{max_s}, t in {{a,b}}^0..{max_t}, n in {{'',1,2,12,01,0}}) x every candidate in {{a,A,b,B,1,2,0,_}}^<={max_c}; plus {} real SCPI mnemonics (incl. 12-character and suffixed ones) x their neighbourhood (all prefixes, single-character edits, case patterns, suffix variants, all other mnemonics); each pair through mnemonic_match, Token::match_program_header (both token kinds) and, for suffix-less definitions, mnemonic_compare, against the independent matcher; and every real mnemonic as the single node of a command tree with each candidate of its neighbourhood sent as a program header (handler runs iff the reference matches); distinct non-trivial = pairs whose candidate alphabetic part is a non-empty case-insensitive prefix of the long form (short form, long form, partial long forms, under-length abbreviations)", REAL_MNEMONICS.len())));
     c.insert("exhaustive".into(), json!(true));
     c.insert("definitions".into(), json!(defs.len() + REAL_MNEMONICS.len()));
     c.insert("reference_matches".into(), json!(acc.matches + real_matches));
@@ -279,6 +316,17 @@ pub fn run(ctx: &'static Ctx) -> i32 {
 pub fn replay(case: &Value) -> Result<String, String> {
     let def: &'static [u8] = Box::leak(unesc(case["def"].as_str().unwrap_or("")).into_boxed_slice());
     let cand = unesc(case["cand"].as_str().unwrap_or(""));
+    if case["kind"] == "tree" {
+        use crate::rig::{run_vec, RigDev, TreeSpec};
+        let d = std::str::from_utf8(def).unwrap_or("");
+        let spec = TreeSpec::root(vec![TreeSpec::leaf(d, 0)]);
+        let mut dev = RigDev::new();
+        let mut out = Vec::new();
+        let r = guarded(|| run_vec(spec.build(), &mut dev, &cand, &mut out))?;
+        let want = ref_match(def, &cand);
+        let invoked = !dev.calls.is_empty();
+        return if Some(invoked) == want && Some(r.is_ok()) == want { Ok(format!("invoked={invoked}")) } else { Err(format!("tree: invoked={invoked}, result ok={}, reference {:?}", r.is_ok(), want)) };
+    }
     match check_pair(def, &cand) {
         Some((k, w)) => Err(format!("{k}: {w}")),
         None => Ok(format!("mnemonic_match={}", mnemonic_match(def, &cand))),
